@@ -1,6 +1,6 @@
 """C15 -- package type names map one-to-one, case-insensitively (DESIGN.md 5.15)."""
-from purlsa.core import AnchorError, simplify_val
-from purlsa.sem import norm, nshow
+from purlsa.core import AnchorError, simplify_val, strip, callee_name
+from purlsa.sem import norm, nshow, fmt_pieces, atoms_at
 from purlsa import models, paths
 from .common import fn_site, VALID_TYPE_SET
 
@@ -118,36 +118,106 @@ def rule_views(ctx):
         "AsRef<str>": [k for k, f in facts.fns.items() if f.get("impl_trait_def") == "std::convert::AsRef" and f.get("impl_self") == "package_type::PackageType"],
         "PurlShape::package_type": [k for k, f in facts.fns.items() if f.get("impl_trait_def") == "PurlShape" and f.get("impl_self") == "package_type::PackageType" and f.get("name") == "package_type"],
     }
+    view_keys = {}
     for nm, ks in views.items():
         if len(ks) != 1:
             raise AnchorError("view %s not found" % nm)
-        b = facts.body(ks[0])
+        view_keys[nm] = ks[0]
+
+    def self_arg(a):
+        a = strip(a)
+        return a == ("arg", 1)
+
+    def view_target(k):
+        """what a view returns: 'name' (name() of self, possibly wrapped in Cow::Borrowed), ('view', other) (another view of
+        self), or None"""
+        b = facts.body(k)
+        if b.back_edges():
+            return None
         t = norm(b.resolve_local(0))
-        ncalls = len([1 for _ in b.calls()])
-        ok = is_name_call(t) and not b.back_edges()
-        ctx.ob("VIEWS", "%s is name()" % nm, ok, fn=ks[0], site=fn_site(facts, ks[0]), detail="returns %s (%d calls)" % (nshow(t), ncalls))
+        if t[0] == "agg" and t[1][0] == "adt" and t[1][1] == "std::borrow::Cow" and t[1][2] == "Borrowed" and len(t[2]) == 1:
+            t = t[2][0]
+        if is_name_call(t):
+            return "name"
+        if t[0] == "call" and t[1] in view_keys.values() and len(t[2]) == 1 and self_arg(t[2][0]):
+            return ("view", t[1])
+        return None
+
+    def resolves_to_name(k, seen=()):
+        v = view_target(k)
+        if v == "name":
+            return True
+        if isinstance(v, tuple) and v[1] not in seen:
+            return resolves_to_name(v[1], seen + (k,))
+        return False
+    for nm, k in view_keys.items():
+        b = facts.body(k)
+        t = norm(b.resolve_local(0))
+        ctx.ob("VIEWS", "%s is name()" % nm, resolves_to_name(k), fn=k, site=fn_site(facts, k), detail="returns %s" % nshow(t))
     ks = [k for k, f in facts.fns.items() if f.get("impl_trait_def") == "std::fmt::Display" and f.get("impl_self") == "package_type::PackageType"]
     if len(ks) != 1:
         raise AnchorError("Display for PackageType not found")
     b = facts.body(ks[0])
     t = norm(b.resolve_local(0))
-    ok = t[0] == "call" and t[1] == "std::fmt::Formatter::<'a>::write_str" and t[2][0] == ("arg", 2) and is_name_call(t[2][1])
-    ctx.ob("VIEWS", "Display writes exactly name()", ok and len(list(b.calls())) == 2, fn=ks[0], site=fn_site(facts, ks[0]), detail=nshow(t))
+
+    def is_name_like(x):
+        x = norm(x)
+        return is_name_call(x) or (x[0] == "call" and x[1] in view_keys.values() and len(x[2]) == 1 and self_arg(x[2][0]) and resolves_to_name(x[1]))
+    ok = False
+    writes = [(bb, tt) for bb, tt in b.calls() if any(strip(b.resolve_operand(a)) == ("arg", 2) for a in tt["args"])]
+    if len(writes) == 1:
+        bb, tt = writes[0]
+        p = callee_name(tt["callee"])
+        args = [b.resolve_operand(a) for a in tt["args"]]
+        if p in ("std::fmt::Formatter::<'a>::write_str", "<std::fmt::Formatter<'_> as std::fmt::Write>::write_str", "std::fmt::Formatter::<'a>::pad") and is_name_like(args[1]):
+            ok = True
+        elif p == "std::fmt::Formatter::<'a>::write_fmt":
+            pieces = fmt_pieces(args[1])
+            ok = pieces is not None and len(pieces) == 1 and pieces[0][0] == "display" and is_name_like(pieces[0][1])
+        elif p in ("<str as std::fmt::Display>::fmt", "std::fmt::Display::fmt") and is_name_like(args[0]):
+            ok = True
+    ctx.ob("VIEWS", "Display writes exactly name()", ok and not b.back_edges(), fn=ks[0], site=fn_site(facts, ks[0]), detail=nshow(t))
     # FromStr
     ks = [k for k, f in facts.fns.items() if f.get("impl_trait_def") == "std::str::FromStr" and f.get("impl_self") == "package_type::PackageType"]
     if len(ks) != 1:
         raise AnchorError("FromStr for PackageType not found")
-    b = facts.body(ks[0])
+    ok, err, det = fromstr_shape(facts, ks[0])
+    ctx.ob("VIEWS", "FromStr is one lookup of UniCase::new(s) in the table", ok, fn=ks[0], site=fn_site(facts, ks[0]), detail=det)
+
+
+def fromstr_shape(facts, key):
+    """(is `PACKAGE_TYPES.get(&UniCase::new(s))` mapped to Ok(found) / Err(e)?, error constant, shown term) -- as the
+    combinator chain `.copied().ok_or(e)` or as the equivalent `match`"""
+    b = facts.body(key)
     t = norm(b.resolve_local(0))
+
+    def is_lookup(x):
+        if x[0] == "call" and x[1] == "phf::Map::<K, V>::get":
+            tbl, probe = x[2]
+            return probe[0] == "call" and probe[1] == "unicase::UniCase::<S>::new" and probe[2] == (("arg", 1),)
+        return False
     ok = False
+    err = None
     if t[0] == "call" and t[1] == "std::option::Option::<T>::ok_or":
         x = t[2][0]
         if x[0] == "call" and x[1] == "std::option::Option::<&T>::copied":
             x = x[2][0]
-        if x[0] == "call" and x[1] == "phf::Map::<K, V>::get":
-            tbl, probe = x[2]
-            ok = probe[0] == "call" and probe[1] == "unicase::UniCase::<S>::new" and probe[2] == (("arg", 1),) and "PACKAGE_TYPES" in nshow(tbl) or (probe[0] == "call" and probe[1] == "unicase::UniCase::<S>::new" and probe[2] == (("arg", 1),))
-    ctx.ob("VIEWS", "FromStr is one lookup of UniCase::new(s) in the table", ok and not b.back_edges(), fn=ks[0], site=fn_site(facts, ks[0]), detail=nshow(t)[:200])
+        ok = is_lookup(x)
+        err = models.error_const(t[2][1])
+    else:
+        # match table.get(key) { Some(t) => Ok(*t), None => Err(Unsupported) }
+        rets = [(bb, models.classify_return(n)) for (bb, n) in models.returns(b)]
+        lookups = [bb for bb, tt in b.calls() if callee_name(tt["callee"]) == "phf::Map::<K, V>::get"]
+        if len(rets) == 2 and len(lookups) == 1 and sorted(c[0] for _, c in rets) == ["err", "ok"]:
+            (be, ce), (bo, co) = sorted(rets, key=lambda r: r[1][0])
+            ae = [models.canon_atom(a) for _, a in atoms_at(b, be)]
+            ao = [models.canon_atom(a) for _, a in atoms_at(b, bo)]
+            pay = co[1]
+            look = pay[1] if pay[0] == "some" else None
+            ok = look is not None and is_lookup(look) and len(ae) == 1 and ae[0][0] == "callres" and ae[0][1] == "phf::Map::<K, V>::get" and ae[0][-1] == "None" \
+                and len(ao) == 1 and ao[0][0] == "callres" and ao[0][-1] == "Some"
+            err = models.error_const(ce[1])
+    return ok and not b.back_edges(), err, nshow(t)[:200]
 
 
 def rule_nolookalike(ctx):
